@@ -1161,6 +1161,16 @@ class Fxp():
     # behaviors
 
     def _overflow_action(self, new_val, val_min, val_max):
+        if val_max >= 2**53:
+            # bounds that a float does not hold: rounded floats are compared with them (and clipped) as python integers, a float
+            # comparison would take 2**63 for 2**63 - 1 and let it through
+            _a = np.asarray(new_val)
+            if _a.dtype.kind == 'f' and np.all(np.isfinite(_a)):
+                new_val = np.array([int(v) for v in _a.flatten()], dtype=object).reshape(_a.shape)
+            elif _a.dtype == object:
+                new_val = np.array([int(v) if isinstance(v, (float, np.floating)) and np.isfinite(v) else v for v in _a.flatten()], 
+                                   dtype=object).reshape(_a.shape)
+
         if np.any(new_val > val_max):
             self.status['overflow'] = True
             self._run_callbacks('on_status_overflow')
@@ -1171,6 +1181,8 @@ class Fxp():
         if self.config.overflow == 'saturate':
             if isinstance(new_val, np.ndarray) and new_val.dtype == object:
                 val = np.clip(new_val, val_min, val_max)
+                if not isinstance(val, np.ndarray):
+                    val = np.array(val, dtype=object)     # (a 0-d array of python integers comes back as a bare one)
             else:
                 val = utils.clip(new_val, val_min, val_max)
 
